@@ -357,9 +357,36 @@ def ev_cov(case, rec):
     rec.sample({'trans': case['trans'], 'pt': pt, 'vcv': case['mats'][0]})
 
 
+# --- two threads transforming DIFFERENT points with DIFFERENT sets and covariances at the same time ----------
+from gpmc import threads as _thr
+import datetime as _dtm
+import numpy as _tnp
+import geodepy.constants as _tgc
+import geodepy.transform as _tgt
+import geodepy.convert as _tgv
+import geodepy.geodesy as _tgg
+import geodepy.statistics as _tgs
+import geodepy.survey as _tsv
+import geodepy.angles as _tga
+_V1 = [[1e-4, 2e-5, -1e-5], [2e-5, 4e-4, 3e-5], [-1e-5, 3e-5, 9e-4]]
+_V2 = [[9e-3, -2e-3, 1e-3], [-2e-3, 5e-3, 2e-3], [1e-3, 2e-3, 7e-3]]
+T_CALLS = {
+    'gda94_vcv': lambda: (lambda v=_tnp.array(_V1): _tgt.conform7(-4052051.7643, 4212836.2017, -2545106.0245, _tgc.gda94_to_gda2020, v)),
+    'gda2020_vcv_p2': lambda: (lambda v=_tnp.array(_V2): _tgt.conform7(-2389025.0, 5043317.0, -3078531.0, _tgc.gda2020_to_gda94, v)),
+    'itrf08_vcv_p3': lambda: (lambda v=_tnp.array(_V2) * 0.5: _tgt.conform7(4075539.9, 931735.3, 4801629.4, _tgc.itrf2008_to_gda94, v)),
+    'agd66_novcv': lambda: (lambda: _tgt.conform7(-4646678.6, 2553206.1, -3534319.9, _tgc.agd66_to_gda94)),
+    'user_set': lambda: (lambda t=_tgc.Transformation('A', 'B', 0, 1.0, -2.0, 3.0, 0.5, 0.1, -0.2, 0.3): _tgt.conform7(1e6, -2e6, 3e6, t)),
+    'neg_set_vcv': lambda: (lambda v=_tnp.array(_V1) * 3.0: _tgt.conform7(-4052051.7643, 4212836.2017, -2545106.0245, -_tgc.itrf2014_to_gda2020 if False else -_tgc.gda94_to_gda2020, v)),
+}
+_tg, _te = _thr.make(T_CALLS, ['geodepy/transform.py', 'geodepy/constants.py'], 'transform:conform7:threads',
+                     quick=['gda94_vcv', 'gda2020_vcv_p2', 'itrf08_vcv_p3', 'user_set'], triple=('gda94_vcv', 'gda2020_vcv_p2', 'agd66_novcv'),
+                     files_thorough=['geodepy/angles.py'])
+
+
 SUBCHECKS = [
     Sub('formula', gen_formula, ev_formula, chunk=4, floor=1000, guard=True, envs=3),
     Sub('covariance', gen_cov, ev_cov, chunk=2, floor=200, guard=True, envs=2),
+    Sub('threads', _tg, _te, chunk=1, floor=3, poison=False),
 ]
 
 
